@@ -345,12 +345,15 @@ func rawRoundTrip(addr, method, target string) (int, string) {
 	if _, err := io.WriteString(c, method+" "+target+" HTTP/1.1\r\nHost: x\r\nConnection: close\r\n\r\n"); err != nil {
 		return 0, ""
 	}
-	resp, err := http.ReadResponse(bufio.NewReader(c), nil)
+	resp, err := http.ReadResponse(bufio.NewReader(c), &http.Request{Method: method})
 	if err != nil {
 		return 0, ""
 	}
 	defer resp.Body.Close()
 	b, _ := io.ReadAll(resp.Body)
+	if len(b) == 0 && resp.Header.Get("X-Route-Result") != "" {
+		return resp.StatusCode, resp.Header.Get("X-Route-Result")
+	}
 	return resp.StatusCode, string(b)
 }
 
@@ -402,7 +405,9 @@ func execRoute(table, method, kind, x string) string {
 
 	if kind == "srv" {
 		srv := httptest.NewServer(http.HandlerFunc(func(w http.ResponseWriter, r *http.Request) {
-			io.WriteString(w, routeOne(router, targets, r, head))
+			res := routeOne(router, targets, r, head)
+			w.Header().Set("X-Route-Result", res) // a HEAD response carries no body
+			io.WriteString(w, res)
 		}))
 		defer srv.Close()
 		code, body := rawRoundTrip(srv.Listener.Addr().String(), method, x)
@@ -494,6 +499,9 @@ var (
 	// verbs with ':' (only behind a final variable) and literals with ':' (only before the last segment)
 	colonVerbPool = []string{"batch:cancel", "a:b", "v:v", "x:get", "a:b:c", "get:", ":v", "a:", "b:cancel", "watch:x"}
 	colonLitPool  = []string{"a:b", "x:get", ":v", "a:", "v1:batch", "a:b:c"}
+	// HTTP methods that are (almost) never bound in a generated table: every path is also probed with them — the
+	// method is a case-sensitive token compared byte for byte, there is no HEAD->GET / OPTIONS / lower-case fallback
+	foreignMethPool = []string{"HEAD", "OPTIONS", "PUT", "PATCH", "DELETE", "TRACE", "CONNECT", "PROPFIND", "get", "Get", "post", "GETX", "GE"}
 	exSymbols = []string{"a", "b", "", "%2F", "a:v", "%zz"}
 )
 
@@ -840,6 +848,19 @@ func (Area) Gen(r *rand.Rand, tier string, emit func(string)) {
 			emit(fmt.Sprintf("r %s %s %s %s", tbl, common.HexS("POST"), kind, common.HexS(target)))
 		}
 	}
+	// exact HTTP method: a path that a GET / POST binding matches, asked with every method that has no binding in the
+	// table (seeded C03-m12: commit() aliased the GET list under HEAD) and with the other bound method
+	for _, target := range []string{"/a/x", "/v/x", "/a/x:get", "/p.S/C", "/w/a/b:watch", "/", "/nope"} {
+		for _, m := range append([]string{"GET", "POST"}, foreignMethPool...) {
+			for _, kind := range []string{"req", "raw", "path", "srv"} {
+				if kind == "srv" && m == "CONNECT" {
+					continue
+				}
+				count("r-method-builtin")
+				emit(fmt.Sprintf("r %s %s %s %s", tbl, common.HexS(m), kind, common.HexS(target)))
+			}
+		}
+	}
 	// verbs containing ':' (behind a variable the verb is everything after the first ':'): the verb must be cut
 	// PER ROUTE at ":"+<that route's verb>, never once at the last ':' (C03_verb_split_per_route; seeded C03-m10)
 	{
@@ -1086,6 +1107,17 @@ func (Area) Gen(r *rand.Rand, tier string, emit func(string)) {
 			}
 			count("r-" + kind)
 			emit(fmt.Sprintf("r %s %s %s %s", table, common.HexS(method), kind, common.HexS(path)))
+			if r.Intn(2) == 0 { // the same request under another method: unbound in the table, or bound by other templates only
+				om := common.Pick(r, foreignMethPool)
+				if r.Intn(4) == 0 {
+					om = common.Pick(r, methPool)
+				}
+				if om != method && !(kind == "srv" && om == "CONNECT") {
+					i++
+					count("r-other-method")
+					emit(fmt.Sprintf("r %s %s %s %s", table, common.HexS(om), kind, common.HexS(path)))
+				}
+			}
 		}
 	}
 }
